@@ -347,6 +347,11 @@ def run(ctx, rep):
     rep.rule("R10.12", "a boxed message always encodes: lengths fit their length fields and partial operations of the codec are total "
                        "(= R04.5, R04.6); otherwise the references boxed for it are never released")
     K.share(ctx, rep, "c04", lambda o: o.rule in ("R04.5", "R04.6"), "R10.12", floor=5)
+    # a release notice and a message that lends (or hands back) the same object reach the peer in the order they were issued:
+    # everything goes through the one FIFO send queue, nothing overtakes it
+    rep.rule("R10.13", "messages leave in the order they were issued: every message is enqueued before the try-lock and the queue is "
+                       "drained first-in first-out (= R12.2, R12.3, R12.5)")
+    K.share(ctx, rep, "c12", lambda o: o.rule in ("R12.2", "R12.3", "R12.5"), "R10.13", floor=3)
     K.share(ctx, rep, "c03", lambda o: o.rule == "R03.2" and "is never refused" in o.key, "R10.7", floor=3)
 
 
